@@ -3,28 +3,22 @@ import MythVerif.Proofs.WsQueueTsoTac
 namespace MythVerif.WsqTso
 open MythVerif.Wsq
 
-set_option maxHeartbeats 4000000 in
 theorem f_O_ptr_cll (s : St) (i0 x0) (rest : List Sto) : Inv s → s.opc = .cll →
     s.bufO = .ptr i0 x0 :: rest → Inv (applySto { s with bufO := rest } (.ptr i0 x0)) := by
   intro h hpc hb
   simp only [applySto]
-  cases h; simp only [hpc, ownerLocked, carry, resetting, ownerFlight] at *
-  tso_finish3
+  tso_fastO h hpc [carryC]
 
-set_option maxHeartbeats 4000000 in
 theorem f_O_ptr_pu2 (s : St) (i0 x0) (rest : List Sto) (e t) : Inv s → s.opc = .pu2 e t →
     s.bufO = .ptr i0 x0 :: rest → Inv (applySto { s with bufO := rest } (.ptr i0 x0)) := by
   intro h hpc hb
   simp only [applySto]
-  cases h; simp only [hpc, ownerLocked, carry, resetting, ownerFlight] at *
-  tso_finish3
+  tso_fastO h hpc [pu2]
 
-set_option maxHeartbeats 4000000 in
 theorem f_O_ptr_pof (s : St) (i0 x0) (rest : List Sto) (t) : Inv s → s.opc = .pof t →
     s.bufO = .ptr i0 x0 :: rest → Inv (applySto { s with bufO := rest } (.ptr i0 x0)) := by
   intro h hpc hb
   simp only [applySto]
-  cases h; simp only [hpc, ownerLocked, carry, resetting, ownerFlight] at *
-  tso_finish3
+  tso_fastO h hpc [pof]
 
 end MythVerif.WsqTso
